@@ -92,6 +92,10 @@ func (f *WithSlots) Call(s *slip.Scope, args slip.List, depth int) (result slip.
 	}
 	for i := 2; i < len(args); i++ {
 		result = slip.EvalArg(ns, args, i, d2)
+		switch result.(type) {
+		case *slip.ReturnResult, *slip.GoTo:
+			return
+		}
 	}
 	return
 }
